@@ -1075,3 +1075,91 @@ func (p *Program) writesOnlyLocals(fn *ssa.Function, via ...string) string {
 	analyze(fn, pl, nil)
 	return problem
 }
+
+// globalWrites scans the static call tree of fn (bodies inside the module) for writes to package-level
+// variables: stores through addresses rooted at a global, map updates on maps read from a global, and
+// append / copy into slices of a global array.  Returns the offending sites.
+func (p *Program) globalWrites(fn *ssa.Function) []string {
+	var out []string
+	seen := map[*ssa.Function]bool{}
+	var rooted func(v ssa.Value, depth int) *ssa.Global
+	rooted = func(v ssa.Value, depth int) *ssa.Global {
+		if depth > 40 {
+			return nil
+		}
+		switch a := v.(type) {
+		case *ssa.Global:
+			return a
+		case *ssa.FieldAddr:
+			return rooted(a.X, depth+1)
+		case *ssa.IndexAddr:
+			return rooted(a.X, depth+1)
+		case *ssa.Slice:
+			return rooted(a.X, depth+1)
+		case *ssa.UnOp:
+			if a.Op == token.MUL {
+				return rooted(a.X, depth+1) // a pointer / slice / map kept in a global
+			}
+		case *ssa.ChangeType:
+			return rooted(a.X, depth+1)
+		case *ssa.Phi:
+			for _, e := range a.Edges {
+				if e != v {
+					if g := rooted(e, depth+1); g != nil {
+						return g
+					}
+				}
+			}
+		case *ssa.Call:
+			if bi, ok := a.Call.Value.(*ssa.Builtin); ok && bi.Name() == "append" && len(a.Call.Args) > 0 {
+				return rooted(a.Call.Args[0], depth+1)
+			}
+		}
+		return nil
+	}
+	var walk func(f *ssa.Function)
+	walk = func(f *ssa.Function) {
+		if seen[f] || len(f.Blocks) == 0 || !p.inModule(f) {
+			return
+		}
+		seen[f] = true
+		for _, b := range f.Blocks {
+			for _, in := range b.Instrs {
+				switch i := in.(type) {
+				case *ssa.Store:
+					if g := rooted(i.Addr, 0); g != nil {
+						out = append(out, fmt.Sprintf("%s is written in %s", g.Name(), f.String()))
+					}
+				case *ssa.MapUpdate:
+					if g := rooted(i.Map, 0); g != nil {
+						out = append(out, fmt.Sprintf("map %s is updated in %s", g.Name(), f.String()))
+					}
+				case ssa.CallInstruction:
+					cc := i.Common()
+					if bi, isB := cc.Value.(*ssa.Builtin); isB {
+						if (bi.Name() == "append" || bi.Name() == "copy") && len(cc.Args) > 0 {
+							if g := rooted(cc.Args[0], 0); g != nil {
+								out = append(out, fmt.Sprintf("%s into %s in %s", bi.Name(), g.Name(), f.String()))
+							}
+						}
+						continue
+					}
+					if callee := cc.StaticCallee(); callee != nil {
+						walk(callee)
+					}
+					if mc, ok := cc.Value.(*ssa.MakeClosure); ok {
+						if cf, ok2 := mc.Fn.(*ssa.Function); ok2 {
+							walk(cf)
+						}
+					}
+				case *ssa.MakeClosure:
+					if cf, ok := i.Fn.(*ssa.Function); ok {
+						walk(cf)
+					}
+				}
+			}
+		}
+	}
+	walk(fn)
+	return out
+}
